@@ -1136,6 +1136,20 @@ def memo_discovery(check: Check, repo: Repo, mods: list[Module], rule: str = "ME
                             why = (f"the key holds only the projection {sorted(proj)} of `{p}`, but the stored value is computed "
                                    f"from `{p}` itself ({whole[0]}): two different `{p}` with the same projection share one entry")
                             break
+                if not missing:
+                    # a hit returns before the checks that lie between the lookup and the store: those checks may only
+                    # depend on what the key identifies
+                    gets = [c for c in walk_body(fn) if isinstance(c, ast.Call) and isinstance(c.func, ast.Attribute) and c.func.attr == "get"
+                            and unparse(c.func.value) in (unparse(tgt.value), f"self.{al}")]
+                    first = min((c.lineno for c in gets), default=s.lineno)
+                    for g in walk_body(fn):
+                        if isinstance(g, ast.If) and first < g.lineno < s.lineno and any(isinstance(x, ast.Raise) for b in g.body for x in ast.walk(b)):
+                            dep = {p for p in params if p in _names_through_locals(g.test, fn, org, g)} - key_names
+                            if dep:
+                                missing = dep
+                                why = (f"a hit skips the check `{unparse(g.test)[:60]}` (line {g.lineno}), which depends on {sorted(dep)} - not part of "
+                                       f"the key: an entry validated for one {sorted(dep)[0]} is served for another")
+                                break
                 check.ob(rule, s, f"{qualname_of(s)}: self.{al}[{unparse(key)[:40]}]", not missing, why)
 
 
@@ -2089,3 +2103,37 @@ def option_independent(check: Check, repo: Repo, rule: str = "OPTION-INDEPENDENT
                  (f"depends on the other option(s) {foreign}: `{unparse(bound[p])}`" if foreign else f"the option `{p}` does not reach the constructor: `{unparse(bound[p])}`"))
     if n < 3:
         raise AnalysisError("Executor.build: resolver options not found")
+
+
+def nonnull_after_completion(check: Check, repo: Repo, rule: str = "NONNULL-AFTER-COMPLETION") -> None:
+    from rules.language_rules import norm_facts
+
+    check.rule(
+        rule,
+        "Executor.complete_value, non-null arm: the value handed back for a NonNull position is the *completed* value of "
+        "the inner type and it is known not to be None there (must-fact `<completed> is not None` at the return, the null "
+        "case raises the 'Cannot return null for non-nullable field' error). Testing the raw result before completion is "
+        "not the same: Undefined, or a leaf whose coercion yields None, completes to null and would be returned at a "
+        "non-null position without an error and without propagation",
+    )
+    fn = repo.func("execution.executor", "Executor.complete_value")
+    arm = next((i for i in fn.body if isinstance(i, ast.If) and "is_non_null_type" in unparse(i.test)), None)
+    if arm is None:
+        raise AnalysisError("complete_value: non-null arm not found")
+    cfg = CFG(fn)
+    ff = FactFlow(cfg)
+    rets = [r for s in arm.body for r in ast.walk(s) if isinstance(r, ast.Return)]
+    if not rets:
+        raise AnalysisError("complete_value: non-null arm does not return")
+    for r in rets:
+        v = r.value
+        ok, why = False, "returns the inner completion directly: its null result is never tested"
+        if isinstance(v, ast.Name):
+            defs = [s.value for s in arm.body for s in ast.walk(s) if isinstance(s, ast.Assign) and any(isinstance(t, ast.Name) and t.id == v.id for t in s.targets)]
+            from_completion = bool(defs) and all(isinstance(d, ast.Call) and call_name(d).split(".")[-1] == "complete_value" for d in defs)
+            facts = norm_facts(ff.facts_at(r))
+            tested = (f"{v.id} is None", False) in facts
+            ok = from_completion and tested
+            why = (f"`{v.id}` is the completed inner value and `{v.id} is not None` holds here" if ok else
+                   (f"`{v.id}` is not the result of the inner completion" if not from_completion else f"nothing excludes `{v.id} is None` at this return"))
+        check.ob(rule, r, f"complete_value: non-null arm returns `{unparse(v)[:50] if v is not None else None}`", ok, why)
